@@ -105,6 +105,15 @@ def main():
         n_thm += len(stated)
         if not aok:
             broken.append("axiom audit failed for %s: %s" % (m, alog[-500:] if alog else "unexpected axioms"))
+    # independent re-check of the compiled theorem modules by Lean's external checker (thorough tier, or VERIF_LEANCHECKER=1)
+    rechecked = []
+    if ok and (ctx.thorough or os.environ.get("VERIF_LEANCHECKER") == "1"):
+        for m in mod.THEOREM_MODULES:
+            rc, out = vlib.run_cmd(["lake", "env", "leanchecker", m], cwd=vlib.LEAN_DIR, timeout=1800)
+            if rc != 0:
+                broken.append("leanchecker rejects %s: %s" % (m, out[-400:]))
+            else:
+                rechecked.append(m)
     required = getattr(mod, "REQUIRED_THEOREMS", [])
     for r in required:
         if ok and not any(n == r or n.endswith("." + r) for n in obligations):
@@ -187,6 +196,7 @@ def main():
         ] + list(getattr(mod, "TRUSTED", [])),
         "theorems": sorted(obligations.keys()),
         "broken_obligations": broken,
+        "rechecked_by_leanchecker": rechecked,
         "known_findings_confirmed": sorted(confirmed),
         "notes": ctx.notes,
     }
